@@ -74,7 +74,9 @@ def state_case(rng):
         tag = "s" if (bi == 1 and outs[0] == outs[1]) else ""
         for j in range(rng.choice([0, 1, 1, 2, 3, 5, 9, 14])):          # 0: a bank without registers
             w = rng.choice([1, 4, 8, 13, 32, 64, 65, 100, 128])
-            name = tag + rng.choice(["r%d" % j, "reg%d" % j, "n" + "a" * rng.randint(1, 12) + str(j), "v_" + "x" * rng.randint(20, 68) + str(j), "a_b_%d" % j])
+            name = tag + rng.choice(["r%d" % j, "reg%d" % j, "n" + "a" * rng.randint(1, 12) + str(j), "v_" + "x" * rng.randint(20, 68) + str(j), "a_b_%d" % j,
+                                     # names that begin like the bank's own prefixes
+                                     "%sone%d" % (lo, j), "%s%s_%d" % (lo, lo, j), "_x%d" % j, "__%d" % j, "%s_%s%d" % (lo, li, j), "%s%d" % (li, j)])
             regs.append((name, w))
         st.append("register %s%s { %s }" % (li, lo, " ".join("%s : %d = 0;" % (n, w) for n, w in regs)))
         for n, w in regs:
